@@ -19,6 +19,7 @@ D  == INSTANCE Directory
 Hd == INSTANCE Header
 H  == INSTANCE Hilbert
 A  == INSTANCE Archive
+DT == INSTANCE DirTree
 
 Rec == ndJsonDeserialize(IOEnv.TRACE)
 
@@ -27,14 +28,16 @@ VARIABLES l, nfail,
           abs, tileById, dataByHash, idsByHash, reply,     \* TileStore
           cfg,                                             \* settings + metadata token the user set
           lens,                                            \* token -> content length
-          saved                                            \* set of <<abs, cfg key, api, file token>> of earlier saves
+          saved,                                           \* set of <<abs, cfg key, api, file token>> of earlier saves
+          cur                                              \* the file of the last File event: [F, full, ol]
 INSTANCE TileStore
 sv == <<abs, tileById, dataByHash, idsByHash>>     \* local copy: UNCHANGED of an instantiated definition is not assignable in TLC
-tvars == <<l, nfail, abs, tileById, dataByHash, idsByHash, reply, cfg, lens, saved>>
+tvars == <<l, nfail, abs, tileById, dataByHash, idsByHash, reply, cfg, lens, saved, cur>>
 
 Has(r, f) == f \in DOMAIN r
 N(n) == U!FromNat(n)
 
+NoFile == [F |-> [none |-> TRUE], full |-> {}, ol |-> {}]
 DefaultCfg == [ic |-> 2, tc |-> 0, tt |-> 0, minz |-> 0, maxz |-> 0, cz |-> 0,
                coords |-> [k \in 1..6 |-> [fl |-> 0, cmp |-> -1]], meta |-> 0]
 
@@ -85,33 +88,34 @@ SaveTags(e) ==
                   THEN {"C16:same_logical_archive_different_bytes"} ELSE {})
 
 \* observed settings after an open (C01 / C03): equal to what the file stores
-ObservedTags(e, F) ==
+ObservedTags(e, F, pre) ==
   LET h == HdrOf(F) IN
   IF ~Has(e, "obs") THEN {}
   ELSE LET o == e.obs IN
     (IF o.ic # h.icomp \/ o.tc # h.tcomp \/ o.tt # h.ttype \/ o.minz # h.minz \/ o.maxz # h.maxz \/ o.cz # h.cz
-        \/ o.coords # <<h.min_lon, h.min_lat, h.max_lon, h.max_lat, h.c_lon, h.c_lat>>
-     THEN {"C01:opened_settings_differ_from_header"} ELSE {})
-    \cup (IF o.meta # F.meta.tok THEN {"C01:opened_metadata_differs"} ELSE {})
+        \/ ~o.coords_e7 \/ o.coords # <<h.min_lon, h.min_lat, h.max_lon, h.max_lat, h.c_lon, h.c_lat>>
+     THEN {pre \o ":opened_settings_differ_from_header"} ELSE {})
+    \cup (IF o.meta # (IF F.meta.kind = "empty" THEN 1 ELSE F.meta.tok)      \* token 1 is "{}" by convention of the harness
+          THEN {pre \o ":opened_metadata_differs"} ELSE {})
 
 (* ---- one disjunct per event kind ---------------------------------------------------------- *)
 IsEvent(k) == l <= Len(Rec) /\ Rec[l].ev = k
 Emit(tags) == /\ \A t \in tags : PrintT(<<"FAIL", l, Rec[l].ev, t>>)
               /\ nfail' = nfail + Cardinality(tags)
               /\ l' = l + 1
-Keep == UNCHANGED <<cfg, lens, saved>>
+Keep == UNCHANGED <<cfg, lens, saved, cur>>
 
 TrNew ==
   /\ IsEvent("New")
   /\ abs' = {} /\ tileById' = {} /\ dataByHash' = {} /\ idsByHash' = {} /\ reply' = Ok
   /\ cfg' = [DefaultCfg EXCEPT !.tt = Rec[l].tt, !.tc = Rec[l].tc]
-  /\ UNCHANGED <<lens, saved>>
+  /\ UNCHANGED <<lens, saved, cur>>
   /\ Emit({})
 
 TrSet ==
   /\ IsEvent("Set")
   /\ cfg' = Rec[l].cfg
-  /\ UNCHANGED <<sv, reply, lens, saved>>
+  /\ UNCHANGED <<sv, reply, lens, saved, cur>>
   /\ Emit({})
 
 TrAdd ==
@@ -122,12 +126,12 @@ TrAdd ==
             /\ Emit((IF e.res = "err" THEN {} ELSE {"C19:empty_content_not_refused"}) \cup CountsTagsP(e))
        ELSE /\ AddTile(e.id, e.tok) /\ lens' = (e.tok :> e.len) @@ lens
             /\ Emit((IF e.res = "ok" THEN {} ELSE {"C04:add_failed"}) \cup CountsTagsP(e))
-  /\ UNCHANGED <<cfg, saved>>
+  /\ UNCHANGED <<cfg, saved, cur>>
 
 TrRemove ==
   /\ IsEvent("Remove")
   /\ RemoveTile(Rec[l].id)
-  /\ UNCHANGED <<cfg, lens, saved>> /\ Emit(CountsTagsP(Rec[l]))
+  /\ UNCHANGED <<cfg, lens, saved, cur>> /\ Emit(CountsTagsP(Rec[l]))
 
 TrGet ==
   /\ IsEvent("Get")
@@ -172,7 +176,7 @@ TrBulk ==
        /\ lens' = [c \in {ts[k].tok : k \in 1..Len(ts)} |-> 0] @@ lens    \* lengths unused for bulk
        /\ reply' = Ok
        /\ Emit(IF Cardinality(m) = Len(ts) /\ Rec[l].res = "ok" THEN {} ELSE {"STIMULUS_bulk_ids_not_distinct"})
-  /\ UNCHANGED <<cfg, saved>>
+  /\ UNCHANGED <<cfg, saved, cur>>
 
 \* to_writer consumes the value; the bytes are dissected into e.file
 TrSave ==
@@ -180,7 +184,7 @@ TrSave ==
   /\ LET e == Rec[l] IN
        /\ saved' = IF e.res = "ok" /\ cfg.ic # 0 THEN saved \cup {<<abs, CfgKey(cfg), e.api, e.ftok>>} ELSE saved
        /\ Emit(SaveTags(e))
-  /\ UNCHANGED <<sv, reply, cfg, lens>>
+  /\ UNCHANGED <<sv, reply, cfg, lens, cur>>
 
 \* open the bytes of the last successful save: every tile reader-backed, map unchanged
 TrReopen ==
@@ -198,19 +202,117 @@ TrObserve ==
             \cup (IF ~o.coords_e7 \/ \E k \in 1..6 : ~Hd!NearestOK(cfg.coords[k].fl, cfg.coords[k].cmp, o.coords[k])
                   THEN {"C01:coordinate_not_nearest_e7"} ELSE {})
             \cup (IF o.meta # cfg.meta THEN {"C01:metadata_not_preserved"} ELSE {}))
-  /\ UNCHANGED <<sv, reply, cfg, lens, saved>>
+  /\ UNCHANGED <<sv, reply, cfg, lens, saved, cur>>
 
 \* new trace segment: forget the store, keep the save history (C16 compares across segments)
 TrReset ==
   /\ IsEvent("Reset")
   /\ abs' = {} /\ tileById' = {} /\ dataByHash' = {} /\ idsByHash' = {} /\ reply' = Ok
   /\ cfg' = DefaultCfg
-  /\ UNCHANGED <<lens, saved>>
+  /\ UNCHANGED <<lens, saved, cur>>
   /\ Emit({})
 
-Init == /\ l = 1 /\ nfail = 0 /\ InitStore /\ cfg = DefaultCfg /\ lens = <<>> /\ saved = {}
+
+(* ---- whole files from any writer (C03, C11, C19, C06) ------------------------------------ *)
+\* foreign files may have an empty metadata section
+WellFormedForeign(F) == A!WellFormed([F EXCEPT !.meta.kind = IF @ = "empty" THEN "object" ELSE @])
+AllUnch == UNCHANGED <<sv, reply, cfg, lens, saved>>
+SetOfTiles(ts) == {<<ts[k].id, ts[k].tok>> : k \in 1..Len(ts)}
+
+\* File: a file image becomes the current file; it must be spec-valid (else the driver is at fault)
+TrFile ==
+  /\ IsEvent("File")
+  /\ LET e == Rec[l]  F == e.file  wf == WellFormedForeign(F) IN
+       /\ cur' = [F |-> F, full |-> A!Addressed(F.tiles), ol |-> DT!ExpandOL(F.tiles)]
+       /\ Emit(IF wf # "ok" THEN {"STIMULUS_file_not_wellformed_" \o wf}
+               ELSE IF Has(e, "exp_tiles") /\ e.exp_tiles # [k \in 1..Len(F.tiles) |-> A!StripTok(F.tiles[k])]
+                    THEN {"STIMULUS_assembled_file_differs_from_generated_layout"} ELSE {})
+  /\ AllUnch
+
+\* full open through the library: exactly the addressed IDs, each with the bytes at its offset
+TrOpened ==
+  /\ IsEvent("Opened")
+  /\ LET e == Rec[l] IN
+       Emit(IF e.res # "ok" THEN {"C03:valid_archive_does_not_open"}
+            ELSE (IF SetOfTiles(e.tiles) # cur.full \/ Len(e.tiles) # Cardinality(cur.full)
+                  THEN {"C03:opened_tiles_differ_from_addressed_content"} ELSE {})
+                 \cup ObservedTags(e, cur.F, "C03"))
+  /\ AllUnch /\ UNCHANGED cur
+
+\* range-filtered open: the full opening restricted to the range
+TrPartial ==
+  /\ IsEvent("Partial")
+  /\ LET e == Rec[l]
+         want == {p \in cur.full : DT!InRange(e.lo, e.hi, p[1])} IN
+       Emit(IF e.res # "ok" THEN {"C11:partial_open_failed_although_full_open_succeeds"}
+            ELSE IF SetOfTiles(e.tiles) # want \/ Len(e.tiles) # Cardinality(want)
+                 THEN {"C11:partial_open_differs_from_restricted_full_open"} ELSE {})
+  /\ AllUnch /\ UNCHANGED cur
+
+\* util::read_directories on the current file, with a range
+TrReadDirs ==
+  /\ IsEvent("ReadDirs")
+  /\ LET e == Rec[l]
+         want == {p \in cur.ol : DT!InRange(e.lo, e.hi, p[1])}
+         got  == {<<e.map[k].id, e.map[k].off, e.map[k].len>> : k \in 1..Len(e.map)}
+         pre  == IF e.lo.k = "unb" /\ e.hi.k = "unb" THEN "C03" ELSE "C11" IN
+       Emit(IF e.res # "ok" THEN {pre \o ":read_directories_failed"}
+            ELSE IF got # want \/ Len(e.map) # Cardinality(want) THEN {pre \o ":read_directories_map_differs"} ELSE {})
+  /\ AllUnch /\ UNCHANGED cur
+
+\* Directory::find_entry_for_tile_id on one directory: index of the covering entry (0 = none)
+TrFind ==
+  /\ IsEvent("Find")
+  /\ LET e == Rec[l] IN
+       Emit(IF \E k \in 1..Len(e.cases) : e.cases[k].res # D!FindEntry(e.dir, e.cases[k].id)
+            THEN {"C03:find_entry_wrong"} ELSE {})
+  /\ AllUnch /\ UNCHANGED cur
+
+\* documented rejections on open: non-object metadata, unknown internal compression
+TrOpenReject ==
+  /\ IsEvent("OpenReject")
+  /\ LET e == Rec[l]  d == Hd!DecHeader(e.hdr) IN
+       Emit(IF d.kind # "ok" THEN {"STIMULUS_reject_case_header_invalid"}
+            ELSE IF d.h.icomp = 0
+                 THEN (IF \A k \in 1..Len(e.obs) : e.obs[k].res = "err" THEN {} ELSE {"C19:unknown_internal_compression_not_refused_on_open"})
+            ELSE IF e.meta_kind \in {"array", "string", "number", "bool", "null"}
+                 THEN (IF \A k \in 1..Len(e.obs) : e.obs[k].res = "err" THEN {} ELSE {"C19:non_object_metadata_not_refused"})
+            ELSE {"STIMULUS_not_a_reject_case"})
+  /\ AllUnch /\ UNCHANGED cur
+
+\* util::write_directories: e.entries in, root bytes + leaf section out (C06)
+WriteDirsTags(e) ==
+  LET E == e.entries
+      fits == e.first_len <= 16257
+      rootE == e.root.entries
+  IN
+  IF e.res # "ok" THEN {"C06:write_directories_failed"}
+  ELSE IF e.comp = 1 /\ e.first_len # Len(D!EncDir(E)) THEN {"C06:first_attempt_is_not_the_single_root_encoding"}
+  ELSE IF ~D!ParsesTo(e.root.raw, rootE) \/ \E k \in 1..Len(e.leaves) : ~D!ParsesTo(e.leaves[k].raw, e.leaves[k].entries)
+       THEN {"C06:written_directory_not_decodable"}
+  ELSE IF e.root_clen > 16257 THEN {"C06:root_directory_over_budget"}
+  ELSE IF e.pos_after # e.pos_start + e.root_clen THEN {"C06:stream_not_positioned_after_root"}
+  ELSE IF fits
+       THEN (IF rootE = E /\ Len(e.leaves) = 0 /\ e.leaf_total = 0 /\ e.root_clen = e.first_len
+             THEN {} ELSE {"C06:fitting_list_not_written_as_single_root_with_empty_leaf_section"})
+  ELSE (IF \E i \in 1..Len(rootE) : ~D!IsLeafPtr(rootE[i]) THEN {"C06:spilled_root_contains_tile_entries"} ELSE {})
+       \cup (IF Len(rootE) # Len(e.leaves) \/ \E k \in 1..Len(e.leaves) :
+                    \/ Len(e.leaves[k].entries) = 0
+                    \/ rootE[k].id # e.leaves[k].entries[1].id
+                    \/ rootE[k].off # e.leaves[k].off \/ rootE[k].len # e.leaves[k].len
+                    \/ ~e.leaves[k].exact
+                    \/ ~A!Inside(e.leaves[k].off, e.leaves[k].len, N(e.leaf_total))
+              THEN {"C06:pointer_fields_wrong"} ELSE {})
+       \cup (IF A!ResolveDir(rootE, e.leaves, 1) # E THEN {"C06:resolution_differs_from_input_entries"} ELSE {})
+TrWriteDirs ==
+  /\ IsEvent("WriteDirs")
+  /\ Emit(WriteDirsTags(Rec[l]))
+  /\ AllUnch /\ UNCHANGED cur
+
+Init == /\ l = 1 /\ nfail = 0 /\ InitStore /\ cfg = DefaultCfg /\ lens = <<>> /\ saved = {} /\ cur = NoFile
 Next == TrNew \/ TrSet \/ TrAdd \/ TrRemove \/ TrGet \/ TrGetZxy \/ TrList \/ TrCount \/ TrBulk
         \/ TrSave \/ TrReopen \/ TrObserve \/ TrReset
+        \/ TrFile \/ TrOpened \/ TrPartial \/ TrReadDirs \/ TrFind \/ TrOpenReject \/ TrWriteDirs
 Spec == Init /\ [][Next]_tvars
 
 \* the invariants of the base module hold in every state of the trace behaviour
